@@ -471,8 +471,12 @@ async fn fabitn(
 
     // Step 2) Run 2-party OTs to compute keys and MACs [input parameters mm and kk].
 
-    // Seed a faster AesRng from the shared chacha rng
-    let mut aes_rand = AesRng::from_seed(multi_shared_rand.random());
+    // Seed a faster AesRng from the shared chacha rng. The test strings must not be determined
+    // before the authenticated bits exist, so a coin toss made now, after the OTs, is mixed in.
+    let mut fresh_rand = shared_rng(channel, i, n).await?;
+    let mut aes_seed: Block = multi_shared_rand.random();
+    aes_seed ^= fresh_rand.random::<Block>();
+    let mut aes_rand = AesRng::from_seed(aes_seed);
     // Step 3) Verification of MACs and keys.
     // Step 3 a) Sample 3 * RHO random l'-bit strings r.
     // We sample whole Blocks as this requires less memory and is faster than sampling
